@@ -50,6 +50,7 @@ WAVE_NOTE = {
     15: "C04+C06, C05, C09, C11+C12, C14+C15, C19",
     16: "C03+C06, C13+C16, C17+C18, C02+C07, C01+C10, C08+C09",
     17: "free choice in the least-touched functions, cooperating sites, f32",
+    18: "three agents: triggers that need a combination (array core, linalg / image, model / layers / optimizer)",
 }
 
 def own(m):
